@@ -119,6 +119,14 @@ def c20(rep, tier, seed):
     seq.check_pipeline(rep, cfgs, {"C20"}, tier, crash_key=_inner_task_key)
 
 
+@check("C19")
+def c19(rep, tier, seed):
+    """yaclib_std::atomic computes what std::atomic computes (Atomic.tla reference semantics, both backends)"""
+    seq.check_atomic(rep, tier)
+    rep.assumptions += ["floating types: integer-valued operands only; atomic_flag and fences carry no value and are not "
+                        "enumerated; one thread"]
+
+
 # ------------------------------------------------------------------------------------------------ setup / replay
 
 def setup():
